@@ -77,25 +77,26 @@ Theorem C10_shr_spec : forall a b n, wf a = true -> try_as_usize b = Ok n ->
 Proof. exact shr_spec_lemma. Qed.
 Print Assumptions C10_shr_spec.
 
-(* ---------------- try_as_usize: refuted on leading zero limbs ---------------- *)
+(* ---------------- try_as_usize (as repaired by fend 2c2d128) ---------------- *)
 
-(* full-strength statement: wf b -> val b < 2^64 -> try_as_usize b = Ok (val b) *)
-Theorem C10_try_as_usize_refuted :
-  exists b, wf b = true /\ val b < W /\ try_as_usize b <> Ok (val b).
-Proof. exact try_as_usize_refuted_lemma. Qed.
-Print Assumptions C10_try_as_usize_refuted.
-
-Theorem C10_try_as_usize_except_known : forall b, wf b = true -> known_C10_noncanonical b = false ->
+(* exactly the values below 2^64 are accepted, whatever the limb
+   representation (leading zero limbs included) *)
+Theorem C10_try_as_usize_spec : forall b, wf b = true ->
   (val b < W -> try_as_usize b = Ok (val b)) /\
   (W <= val b -> try_as_usize b = Err EOutOfRange).
-Proof. exact try_as_usize_except_known_lemma. Qed.
-Print Assumptions C10_try_as_usize_except_known.
+Proof. exact try_as_usize_spec_lemma. Qed.
+Print Assumptions C10_try_as_usize_spec.
 
-(* consequence for shifts: a count that fits in a usize is rejected *)
-Theorem C10_shl_total_refuted :
-  exists a b, wf a = true /\ wf b = true /\ val b < W /\ lshift_n a b = Err EOutOfRange.
-Proof. exact shl_total_refuted_lemma. Qed.
-Print Assumptions C10_shl_total_refuted.
+(* consequence: shifts are defined for every count below 2^64 *)
+Theorem C10_shl_total : forall a b, wf a = true -> wf b = true -> val b < W ->
+  exists r, lshift_n a b = Ok r /\ wf r = true /\ val r = N.shiftl (val a) (val b).
+Proof. exact shl_total_lemma. Qed.
+Print Assumptions C10_shl_total.
+
+Theorem C10_shr_total : forall a b, wf a = true -> wf b = true -> val b < W ->
+  exists r, rshift_n a b = Ok r /\ wf r = true /\ val r = N.shiftr (val a) (val b).
+Proof. exact shr_total_lemma. Qed.
+Print Assumptions C10_shr_total.
 
 (* ---------------- arguments outside the domain are errors ---------------- *)
 
@@ -109,6 +110,20 @@ Theorem C10_domain_errors : forall q, rat_wf q = true -> ~ denotes_nat q ->
      is_err (q_permutation q b)).
 Proof. exact domain_errors_lemma. Qed.
 Print Assumptions C10_domain_errors.
+
+(* nPr with a bad second argument.  Full-strength statement, refuted:
+     rat_wf a -> rat_wf b -> ~ denotes_nat b -> is_err (q_permutation a b)
+   (permutation only looks at n and n - r: 5 nPr (-1) = 5!/6!) *)
+Theorem C10_npr_domain_refuted : exists a b q, rat_wf a = true /\ rat_wf b = true /\
+  ~ denotes_nat b /\ q_permutation a b = Ok q.
+Proof. exact npr_domain_refuted_lemma. Qed.
+Print Assumptions C10_npr_domain_refuted.
+
+(* outside the class "r is a negative integer" the error is raised *)
+Theorem C10_npr_domain_except_known : forall a b, rat_wf a = true -> rat_wf b = true ->
+  ~ denotes_nat b -> known_C10_npr_negative_r b = false -> is_err (q_permutation a b).
+Proof. exact npr_domain_except_known_lemma. Qed.
+Print Assumptions C10_npr_domain_except_known.
 
 (* r > n, modulus zero or negative *)
 Theorem C10_domain_errors_binary : forall a b n r, rat_repr a n -> rat_repr b r ->
@@ -210,6 +225,13 @@ Theorem C10_round_beyond_u64_wrong : forall mode q r, rneg q = false -> dval q <
 Proof. exact round_beyond_u64_wrong_lemma. Qed.
 Print Assumptions C10_round_beyond_u64_wrong.
 
+(* outside the known class (here: integers below 2^53 held in Small limbs)
+   today's code meets the statement *)
+Theorem C10_round_except_known : forall mode q, rat_wf q = true -> known_C10_float q = false ->
+  exists r, q_round mode q = Ok r /\ rat_is_Z r (round_spec mode q) = true.
+Proof. exact round_except_known_lemma. Qed.
+Print Assumptions C10_round_except_known.
+
 (* the proposed repair (integer divmod) meets the full-strength statement *)
 Theorem C10_round_exact_spec : forall mode q, rat_wf q = true ->
   exists r, q_round_exact mode q = Ok r /\ dval r = 1 /\ rat_is_Z r (round_spec mode q) = true.
@@ -233,8 +255,12 @@ Example C10_bad_domain_inhabited :
   rat_wf (mkrat false (Small 5) (Small 2)) = true /\ ~ denotes_nat (mkrat false (Small 5) (Small 2)).
 Proof. exact bad_domain_example. Qed.
 
-Example C10_known_noncanonical_inhabited :
-  known_C10_noncanonical (Large [5; 0]) = true /\ known_C10_noncanonical (Large [5]) = false.
+Example C10_leading_zero_count_accepted : try_as_usize (Large [5; 0]) = Ok 5.
+Proof. reflexivity. Qed.
+
+Example C10_round_class_inhabited :
+  known_C10_float (mkrat true (Small 7) (Small 1)) = false /\
+  known_C10_float (mkrat false (Small 7) (Small 2)) = true.
 Proof. split; reflexivity. Qed.
 
 Example C10_beyond_u64_inhabited :
